@@ -206,12 +206,21 @@ impl<'p, 'd> Builder<'p, 'd> {
     }
 
     /// A directly left-recursive operator rule with fresh operator tokens.
+    /// token closing a mixfix branch: fresh, or (shared-ops profiles) one that other rules use too
+    fn closer(&mut self) -> Option<usize> {
+        if self.p.pratt_shared_ops && self.d.chance(1, 2) {
+            Some(self.d.below(self.n_plain))
+        } else {
+            self.fresh_token(true)
+        }
+    }
+
     fn gen_pratt(&mut self, rule: usize, n_rules: usize) -> Option<Regex> {
         let n_ops = 1 + self.d.below(4);
         let n_atoms = 1 + self.d.below(2);
         let mut branches = vec![];
         for _ in 0..n_ops {
-            let kind = self.d.below(5);
+            let kind = if self.p.pratt_shared_ops && self.d.chance(1, 3) { 5 + self.d.below(2) } else { self.d.below(7) };
             let n_toks = 1 + self.d.below(2);
             let mut toks = vec![];
             for _ in 0..n_toks {
@@ -241,12 +250,21 @@ impl<'p, 'd> Builder<'p, 'd> {
                 1 => vec![op, e.clone()],
                 2 => vec![e.clone(), op],
                 3 => {
-                    let c = self.fresh_token(true)?;
+                    let c = self.closer()?;
                     vec![e.clone(), op, e.clone(), Regex::Tok(c, false)]
                 }
-                _ => {
-                    let c = self.fresh_token(true)?;
+                4 => {
+                    let c = self.closer()?;
                     vec![e.clone(), op, e.clone(), Regex::Tok(c, false), e.clone()]
+                }
+                // nullable operator position: the branch is selected by the predict set of `[op]`, i.e. by `op` or `c`
+                5 => {
+                    let c = self.closer()?;
+                    vec![e.clone(), Regex::Opt(Box::new(op)), Regex::Tok(c, false)]
+                }
+                _ => {
+                    let c = self.closer()?;
+                    vec![e.clone(), Regex::Star(Box::new(op)), Regex::Tok(c, false), e.clone()]
                 }
             };
             branches.push(Regex::Concat(b));
